@@ -7,6 +7,7 @@ it never judges anything.  Profiles bias the vocabulary.  Formulas come from a c
 hostile shapes are generated only by the checks that target them (DESIGN.md section 9).
 """
 import random
+import re
 
 DATA_TYPES = ['Int', 'Numeric', 'Text', 'Bool', 'Any', 'Choice', 'ChoiceList', 'Date']
 
@@ -39,6 +40,15 @@ class DocView(object):
   def all_cols(self, tid):
     return sorted(c for c in self.tables[tid]["cols"]
                   if c != 'manualSort' and not c.startswith('gristHelper_'))
+
+  def mentioned(self, name):
+    """True if any formula text in the document mentions `name` as a word (clean-history rule)."""
+    pat = re.compile(r"(?<![A-Za-z0-9_])%s(?![A-Za-z0-9_])" % re.escape(name))
+    for t in self.tables.values():
+      for c in t["cols"].values():
+        if c[3] and pat.search(c[3]):
+          return True
+    return False
 
   def formula_cols(self, tid):
     return sorted(c for c, v in self.tables[tid]["cols"].items()
@@ -88,11 +98,21 @@ class Gen(object):
       return ['L'] + r.sample(rows, k)
     return r.choice([None, 1, "a", 2.5, True])
 
-  def formula(self, view, tid, exclude=()):
-    """A clean formula over existing columns of tid (and other tables)."""
+  def formula(self, view, tid, exclude=(), before=None):
+    """
+    A clean formula over existing columns of tid (and other tables).  Clean = every name resolves,
+    and no cycle can arise: it mentions data columns, and formula columns only if they were created
+    before the column being defined (`before` = its colRef; None for a new column).
+    """
     r = self.rng
-    cols = [c for c in view.all_cols(tid) if c not in exclude]
-    dcols = [c for c in view.data_cols(tid) if c not in exclude]
+    opts = PROFILE_OPTS.get(self.profile, {})
+    def usable(t, c):
+      ref, _typ, isf, _f, _rec = view.tables[t]["cols"][c]
+      if t == tid and c in exclude:
+        return False
+      return (not isf) or before is None or ref < before
+    cols = [c for c in view.all_cols(tid) if usable(tid, c)]
+    dcols = [c for c in view.data_cols(tid) if usable(tid, c)]
     others = [t for t in view.user_tables() if t != tid]
     shapes = []
     if cols:
@@ -105,26 +125,28 @@ class Gen(object):
     for c in cols:
       typ = view.tables[tid]["cols"][c][1]
       if typ.startswith('Ref:') and typ[4:] in view.tables:
-        tcols = view.all_cols(typ[4:])
+        tcols = [x for x in view.all_cols(typ[4:]) if usable(typ[4:], x)]
         if tcols:
           shapes.append("$%s.%s" % (c, r.choice(tcols)))
       if typ.startswith('RefList:') and typ[8:] in view.tables:
-        tcols = view.all_cols(typ[8:])
+        tcols = [x for x in view.all_cols(typ[8:]) if usable(typ[8:], x)]
         if tcols:
           shapes.append("list($%s.%s)" % (c, r.choice(tcols)))
           shapes.append("len($%s)" % c)
     # lookups into this or another table by a data column
     for t in ([tid] + others)[:3]:
-      tcols = [c for c in view.data_cols(t) if not (t == tid and c in exclude)]
+      tcols = [c for c in view.data_cols(t) if usable(t, c)]
       if tcols and dcols:
         k = r.choice(tcols)
         mine = r.choice(dcols)
         shapes.append("len(%s.lookupRecords(%s=$%s))" % (t, k, mine))
         shapes.append("%s.lookupOne(%s=$%s).id" % (t, k, mine))
+        shapes.append("sorted(r.id for r in %s.lookupRecords(%s=$%s))" % (t, k, mine))
         if len(tcols) >= 2:
           k2 = r.choice([c for c in tcols if c != k])
-          shapes.append("[r.id for r in %s.lookupRecords(%s=$%s, order_by='-%s')]" % (t, k, mine, k2))
-          shapes.append("list(%s.lookupRecords(%s=$%s).%s)" % (t, k, mine, k2))
+          if opts.get("sorted_lookups"):
+            shapes.append("[r.id for r in %s.lookupRecords(%s=$%s, order_by='-%s')]" % (t, k, mine, k2))
+          shapes.append("sorted(%s.lookupRecords(%s=$%s).%s, key=repr)" % (t, k, mine, k2))
     if not shapes:
       shapes = ["1", "'x'", "None", "rec.id * 2"]
     shapes += ["$id", "1 + 1"]
@@ -194,7 +216,9 @@ class Gen(object):
     return ['AddColumn', tid, cid, {'type': typ, 'isFormula': False, 'formula': ''}]
 
   def ua_remove_column(self, view, tid):
-    cols = view.all_cols(tid)
+    # clean-history rule: never remove something a formula still mentions (stale/NameError zone,
+    # explored separately by the C05 check)
+    cols = [c for c in view.all_cols(tid) if not view.mentioned(c)]
     if not cols:
       return None
     return ['RemoveColumn', tid, self.rng.choice(cols)]
@@ -213,9 +237,10 @@ class Gen(object):
     c = r.choice(cols)
     _, typ, isf, formula, _rec = view.tables[tid]["cols"][c]
     k = r.random()
+    ref = view.tables[tid]["cols"][c][0]
     if isf:
       if k < 0.6:
-        return ['ModifyColumn', tid, c, {'formula': self.formula(view, tid, exclude=(c,))}]
+        return ['ModifyColumn', tid, c, {'formula': self.formula(view, tid, exclude=(c,), before=ref)}]
       if k < 0.8:
         return ['ModifyColumn', tid, c, {'type': r.choice(['Any', 'Int', 'Text', 'Numeric'])}]
       return ['ModifyColumn', tid, c, {'isFormula': False}]
@@ -225,12 +250,20 @@ class Gen(object):
       if others and r.random() < 0.25:
         newt = r.choice(['Ref:', 'RefList:']) + r.choice(others)
       return ['ModifyColumn', tid, c, {'type': newt}]
-    return ['ModifyColumn', tid, c, {'isFormula': True, 'formula': self.formula(view, tid, exclude=(c,))}]
+    if view.mentioned(c):
+      return None     # clean-history rule: a mentioned data column does not turn into a formula
+    return ['ModifyColumn', tid, c, {'isFormula': True, 'formula': self.formula(view, tid, exclude=(c,), before=ref)}]
 
   def ua_rename_table(self, view, tid):
     return ['RenameTable', tid, self.fresh("N")]
 
   def ua_remove_table(self, view, tid):
+    if view.mentioned(tid) or any(view.mentioned(c) for c in view.all_cols(tid)):
+      return None
+    for t in view.tables.values():
+      for c in t["cols"].values():
+        if c[1] in ('Ref:' + tid, 'RefList:' + tid):
+          return None
     return ['RemoveTable', tid]
 
   def ua_meta_label(self, view, tid):
@@ -290,6 +323,10 @@ class Gen(object):
       out.append(self.ua_invalid(view))
     return out
 
+
+PROFILE_OPTS = {
+  "lookups": {"sorted_lookups": True},
+}
 
 PROFILES = {
   "general": {"add_records": 20, "update_records": 20, "remove_records": 8, "add_column": 10,
